@@ -1237,9 +1237,11 @@ class Converter:
         vars_def_in_loop = self.analyzer.assigned_vars(loop_stmt.body)
         live_out = self.analyzer.live_out(loop_stmt)
         assert live_out is not None, "live_out cannot be None here."
-        loop_state_vars = vars_def_in_loop.intersection(exposed_uses | live_out)
-        scan_outputs = set()  # TODO
-        outputs = list(loop_state_vars | scan_outputs)
+        # A single ordered sequence is used for the loop inputs, the body parameters, the body
+        # outputs and the loop outputs, so that position k always denotes the same variable.
+        loop_state_vars = sorted(vars_def_in_loop.intersection(exposed_uses | live_out))
+        scan_outputs: list[str] = []  # TODO
+        outputs = loop_state_vars + scan_outputs
 
         # loop-condition:
         # o_loop_condition = self._emit_const(True, "true", self._source_of(loop_stmt))
